@@ -20,7 +20,7 @@ func init() {
 		Explanation: "Five frame/protocol clauses are decided. PAR-ROLE: the parser's zero-results protocol — symbolic paths through parse/Block/getCase/forNud/ifNud/switchNud give, for every parsed child, its grammar slot (counted by the `;`/`case` delimiters consumed before it); SimpleStmt slots (top-level and block statements, for-init, for-post, if-init) must pass through the statement patch (a bare call requests 0 results) and expression slots (conditions, range operands, switch tag, case expressions) must not. HND-LOCALBASE: every access to v.stack in exec is top-relative (len(v.stack)-k) or frame-relative (baseN+operand), never absolute. FRM-ADDR: wherever compile chooses between a local and a global opcode, the opcode and the index come from the same table on every path (path-sensitive symbolic execution). FRM-SLOTS: the slot count in FUNC.B and returned by compiler.run is read from Locals.Cap() after the body was compiled. FRM-PAIR: in mkFunc's closure the previous frame is saved before the switch and restored after exec, the backtrace is pushed before and popped after, BaseN = len(stack)-args is taken before locals are appended, topN-BaseN equals the recorded slot count and the result splice keeps stack[:BaseN]. HND-FIELDS: every operand field a handler reads is set by some emitter of that opcode, and a field is unpacked with splitParams iff every emitter packs it with joinParams. LAY-DEPTH: effect typing of the emitter — handler net effects on len(v.stack) as linear forms over the operands, compile-cases laid out symbolically, child positions typed by the grammar table (value / statement / as-many-as-targets), the net effect of every emitted sequence equals the effect of its node kind on every path, jump source and target depths agree, emitter loops contribute per-iteration effect times trip count, toData leaves one value per literal. PAR-GLOBALIDX, FRM-PARAMSLOT, LAY-EVALORDER, FRM-REDEFINE: see DESIGN.md. Not decided: `return` and the FUNC body (other rules), values.",
 		Assumptions: []string{"grammar slots: for [init; cond; post], if [init; cond], switch [tag] { case exprs: }", "well-typed scripts supply matching value/target counts"},
 		Quick: []ruleDef{
-			{"PAR-ROLE", 10, ruleParRole},
+			{"PAR-ROLE", 8, ruleParRole},
 			{"HND-LOCALBASE", 97, ruleHndLocalBase},
 			{"FRM-ADDR", 14, ruleFrmAddr},
 			{"FRM-SLOTS", 2, ruleFrmSlots},
